@@ -74,7 +74,7 @@ def diff_problems(a, b):
 def has_function_repeat(pr):
     for c in pr["goal_conds"]:
         for x in pddl.walk(c[1:]):
-            if x and isinstance(x[0], str) and x[0] not in pddl.NUM_OPS and len(set(x[1:])) < len(x) - 1:
+            if x and all(isinstance(y, str) for y in x) and x[0] not in pddl.NUM_OPS and not pddl.is_number(x[0]) and len(set(x[1:])) < len(x) - 1:
                 return True
     return False
 
